@@ -60,8 +60,14 @@ func comparedConstsN(f *ssa.Function, depth int) map[string]bool {
 		for _, b := range f.Blocks {
 			for _, in := range b.Instrs {
 				g := ssax.StaticModuleCallee(in)
-				if g == nil || g == f || g.Signature.Results().Len() != 1 || g.Signature.Results().At(0).Type().String() != "bool" {
+				if g == nil || g == f || load.PkgPath(g) != load.PkgPath(f) {
 					continue
+				}
+				// constants handed to a helper (a variadic list of further accepted values)
+				for _, a := range in.(ssa.CallInstruction).Common().Args {
+					for _, cv := range constStringsIn(a, 0) {
+						out[cv] = true
+					}
 				}
 				hasString := false
 				for i := 0; i < g.Signature.Params().Len(); i++ {
@@ -476,6 +482,27 @@ func comparedWithField(info *types.Info, body *ast.BlockStmt, recv, field string
 			if hd == nil || hd.decl.Body == body {
 				break
 			}
+			passesField := false
+			for _, a := range x.Args {
+				if mentionsOrAlias(a) {
+					passesField = true
+				}
+			}
+			if passesField {
+				// constants handed to the helper next to the field: further values it accepts
+				for _, a := range x.Args {
+					named := false
+					switch e := a.(type) {
+					case *ast.Ident:
+						_, named = info.Uses[e].(*types.Const)
+					case *ast.SelectorExpr:
+						_, named = info.Uses[e.Sel].(*types.Const)
+					}
+					if cv, ok := constOf(a); ok && named && cv.Kind() == constant.String {
+						got = append(got, cv)
+					}
+				}
+			}
 			for i, a := range x.Args {
 				if !mentionsOrAlias(a) {
 					continue
@@ -685,6 +712,15 @@ func liftGuard(f *ssa.Function, op string, st *types.Struct, idx int) bool {
 				continue
 			}
 			bp, _ := ssax.Path(mc.Bindings[fvIdx])
+			bpParam := ""
+			if cell, ok := mc.Bindings[fvIdx].(*ssa.Alloc); ok {
+				// a parameter captured by reference lives in a cell: the owner is the parameter
+				if sv := ssax.SingleStore(cell); sv != nil {
+					if prm, ok := sv.(*ssa.Parameter); ok {
+						bpParam = prm.Name()
+					}
+				}
+			}
 			// the binding is the address of the variable: its content is the owner
 			g := false
 			for _, cand := range []string{bp + rest, bp + "*" + rest} {
@@ -694,6 +730,12 @@ func liftGuard(f *ssa.Function, op string, st *types.Struct, idx int) bool {
 			}
 			if !g && strings.HasPrefix(bp, "fv:") {
 				g = liftGuard(p, bp+rest, st, idx)
+			}
+			if !g {
+				g = liftGuardParam(p, bp+rest, st, idx, 0)
+			}
+			if !g && bpParam != "" {
+				g = liftGuardParam(p, bpParam+rest, st, idx, 0)
 			}
 			if !g {
 				return false
@@ -773,9 +815,13 @@ func Tagged(w *load.World, c *core.Collector) {
 				}
 				n++
 				op, _ := ssax.Path(owner)
+				taggedWorld = w
 				g := guardedAtNormalized(f, b, op, st, idx)
 				if !g && strings.HasPrefix(op, "fv:") {
 					g = liftGuard(f, op, st, idx)
+				}
+				if !g {
+					g = liftGuardParam(f, op, st, idx, 0)
 				}
 				key := fmt.Sprintf("deref:%s@%s", st.Field(idx).Name(), load.FnKey(f))
 				if g {
@@ -877,7 +923,8 @@ func foldSlice(v ssa.Value, seen map[ssa.Value]bool, fields map[fieldOrigin]bool
 				foldSlice(ret.Results[0], map[ssa.Value]bool{}, map[fieldOrigin]bool{}, &l)
 				if l {
 					any = true
-				} else {
+				} else if !onlyOnCaseSensitive(f, b) {
+					// an unfolded return is what the case-sensitive configuration asks for
 					all = false
 				}
 			}
@@ -1133,8 +1180,8 @@ func Fold(w *load.World, c *core.Collector) {
 				}
 			}
 		}
-		// literals that fold fields of a generic change struct
-		if f.Parent() != nil && len(f.Params) == 1 {
+		// literals (or named transformers) that fold fields of a generic change struct
+		if len(f.Params) == 1 && f.Signature.Recv() == nil {
 			nt, ok := f.Params[0].Type().(*types.Named)
 			if !ok || nt.TypeArgs().Len() == 0 {
 				continue
@@ -1174,6 +1221,20 @@ func Fold(w *load.World, c *core.Collector) {
 			}
 			n++
 			foldsIn[topOf(f)] = true
+			if f.Parent() == nil {
+				// a named transformer: the methods that hand it on are the ones that fold
+				for _, m := range w.Fns {
+					for _, mb := range m.Blocks {
+						for _, mi := range mb.Instrs {
+							for _, op := range mi.Operands(nil) {
+								if *op == ssa.Value(f) {
+									foldsIn[topOf(m)] = true
+								}
+							}
+						}
+					}
+				}
+			}
 			key := "siblings:" + load.FnKey(f)
 			var raw []string
 			for _, k := range keyFields {
@@ -1192,4 +1253,134 @@ func Fold(w *load.World, c *core.Collector) {
 	if n < 4 {
 		c.Add("FOLD", "anchor:fold-sites", core.Undecided, "", fmt.Sprintf("found %d case-folding sites, expected at least 4", n), props...)
 	}
+}
+
+// constStringsIn: string constants in an argument expression (directly, or as the elements of a
+// slice literal built for a variadic parameter).
+func constStringsIn(v ssa.Value, depth int) []string {
+	if depth > 3 {
+		return nil
+	}
+	if s, ok := ssax.ConstString(v); ok {
+		return []string{s}
+	}
+	switch x := v.(type) {
+	case *ssa.Slice:
+		if al, ok := x.X.(*ssa.Alloc); ok {
+			var out []string
+			for _, r := range *al.Referrers() {
+				if ia, ok := r.(*ssa.IndexAddr); ok {
+					for _, rr := range *ia.Referrers() {
+						if st, ok := rr.(*ssa.Store); ok {
+							out = append(out, constStringsIn(st.Val, depth+1)...)
+						}
+					}
+				}
+			}
+			return out
+		}
+	case *ssa.Convert:
+		return constStringsIn(x.X, depth+1)
+	case *ssa.ChangeType:
+		return constStringsIn(x.X, depth+1)
+	}
+	return nil
+}
+
+// onlyOnCaseSensitive: block b of f is only reached when a CaseSensitive flag was found set.
+func onlyOnCaseSensitive(f *ssa.Function, b *ssa.BasicBlock) bool {
+	for _, bb := range f.Blocks {
+		ifi, ok := bb.Instrs[len(bb.Instrs)-1].(*ssa.If)
+		if !ok {
+			continue
+		}
+		cond, neg := ifi.Cond, false
+		if u, ok := cond.(*ssa.UnOp); ok && u.Op == token.NOT {
+			cond, neg = u.X, true
+		}
+		if !ssax.Prov(cond)["field:CaseSensitive"] {
+			continue
+		}
+		if _, isBin := cond.(*ssa.BinOp); isBin {
+			continue
+		}
+		edge := 0
+		if neg {
+			edge = 1
+		}
+		if bb == b {
+			continue
+		}
+		if ssax.OnlyViaEdge(bb, edge, b) {
+			return true
+		}
+	}
+	return false
+}
+
+var taggedWorld *load.World
+
+// liftGuardParam: the owner is (reached from) a parameter of a helper: the tag or
+// nil test may have been made by the callers. Holds when every static call site
+// of f passes an owner that is guarded there (at the call).
+func liftGuardParam(f *ssa.Function, op string, st *types.Struct, idx int, depth int) bool {
+	if taggedWorld == nil || depth > 2 || f == nil {
+		return false
+	}
+	root := op
+	rest := ""
+	for i, ch := range op {
+		if ch == '.' || ch == '*' {
+			root, rest = op[:i], op[i:]
+			break
+		}
+	}
+	pi := -1
+	for i, p := range f.Params {
+		if p.Name() == root {
+			pi = i
+		}
+	}
+	if pi < 0 {
+		return false
+	}
+	sites := 0
+	for _, g := range taggedWorld.Fns {
+		for _, b := range g.Blocks {
+			for _, in := range b.Instrs {
+				ci, ok := in.(ssa.CallInstruction)
+				if !ok || ci.Common().StaticCallee() != f || pi >= len(ci.Common().Args) {
+					continue
+				}
+				sites++
+				ap, _ := ssax.Path(ci.Common().Args[pi])
+				okSite := false
+				cands := []string{ap + rest, ap + "*" + rest}
+				if ld, ok := ci.Common().Args[pi].(*ssa.UnOp); ok && ld.Op == token.MUL {
+					// the variable itself (a cell): guards are written against it
+					if cp, _ := ssax.Path(ld.X); cp != "" {
+						if al, isAl := ld.X.(*ssa.Alloc); isAl {
+							cp = fmt.Sprintf("alloc:%s@%d", al.Comment, al.Pos())
+						}
+						cands = append(cands, cp+rest, cp+"*"+rest)
+					}
+				}
+				for _, cand := range cands {
+					if guardedAtNormalized(g, b, cand, st, idx) {
+						okSite = true
+					}
+				}
+				if !okSite && strings.HasPrefix(ap, "fv:") {
+					okSite = liftGuard(g, ap+rest, st, idx)
+				}
+				if !okSite {
+					okSite = liftGuardParam(g, ap+rest, st, idx, depth+1)
+				}
+				if !okSite {
+					return false
+				}
+			}
+		}
+	}
+	return sites > 0
 }
